@@ -1,5 +1,5 @@
 \* exhaustive, generic Composite mode: 3 originals + 2 pool ids, 2 grid cells, depth 4
-CONSTANTS N = 5  NOrig = 3  NLoc = 2  MaxLevel = 5  Typed = FALSE  MaxSet = 2  NBlk = 0
+CONSTANTS N = 5  NOrig = 3  NLoc = 2  MaxLevel = 5  Typed = FALSE  MaxSet = 2  NBlk = 0  BlkGrid = FALSE
 INIT Init
 NEXT Next
 CONSTRAINT Bound
